@@ -274,10 +274,16 @@ Definition in_addr_arpa (ip : list N) : list N :=
 (* the literals srcgen reads, as networks *)
 Definition apply_mask (ip : list N) (ones : N) : list N :=
   map (fun '(b, i) => N.land b (mask_byte ones i)) (combine ip (seq 0 (length ip))).
+(* an IPv4 field: decimal, at most three digits, no leading zero (netip) *)
+Definition parse_octet (f : list N) : option N :=
+  match f with
+  | 48 :: _ :: _ => None
+  | _ => if (3 <? length f)%nat then None else parse_dec f
+  end.
 Definition parse_cidr4 (s : list N) : option ipnet :=
   match split_on 47 s with
   | [a; n] =>
-      match map parse_dec (split_on 46 a), parse_dec n with
+      match map parse_octet (split_on 46 a), parse_dec n with
       | [Some b0; Some b1; Some b2; Some b3], Some ones =>
           if forallb (fun b => b <? 256) [b0; b1; b2; b3] && (ones <=? 32)
           then Some (mk_net (apply_mask [b0; b1; b2; b3] ones) ones 4) else None
@@ -287,12 +293,79 @@ Definition parse_cidr4 (s : list N) : option ipnet :=
   end.
 Definition default_exclude_a : list ipnet := somes (map parse_cidr4 default_exclude_a_txt).
 
-(* 64:ff9b::/96 and ::ffff:0:0/96 — byte values written here, the source
-   literals are pinned by gen_wkp_literal / gen_exclude_aaaa_literal and the
-   compiled values are compared with the code's by the driver. *)
-Definition wkp_ip : list N := [0; 100; 255; 155] ++ zeros 12.
-Definition wkp_net : ipnet := mk_net wkp_ip 96 16.
-Definition default_exclude_aaaa : list ipnet := [mk_net (v4in6_prefix ++ zeros 4) 96 16].
+(* IPv6 CIDR text as net.ParseCIDR reads it (hex groups, one "::", no
+   dotted-quad tail, no zone): used for the two IPv6 literals of the source,
+   tied to net.ParseCIDR by the driver's "cidr-*" cases *)
+Definition hex_digit (c : N) : option N :=
+  if (48 <=? c) && (c <=? 57) then Some (c - 48)
+  else if (97 <=? c) && (c <=? 102) then Some (c - 87)
+  else if (65 <=? c) && (c <=? 70) then Some (c - 55)
+  else None.
+Definition parse_hex16 (g : list N) : option N :=
+  match g with
+  | [] => None
+  | _ =>
+      if (4 <? length g)%nat then None
+      else fold_left (fun acc c => match acc, hex_digit c with
+                                   | Some a, Some d => Some (a * 16 + d)
+                                   | _, _ => None
+                                   end) g (Some 0)
+  end.
+(* split at the first "::" *)
+Fixpoint split_dcolon (s : list N) : option (list N * list N) :=
+  match s with
+  | 58 :: ((58 :: r) as _) => Some ([], r)
+  | c :: r => match split_dcolon r with
+              | Some (h, t) => Some (c :: h, t)
+              | None => None
+              end
+  | [] => None
+  end.
+Definition parse_groups (s : list N) : option (list N) :=
+  match s with
+  | [] => Some []
+  | _ => let gs := map parse_hex16 (split_on 58 s) in
+         if forallb (fun o => match o with Some _ => true | None => false end) gs then Some (somes gs) else None
+  end.
+Definition parse_ip6 (s : list N) : option (list N) :=
+  let groups :=
+    match split_dcolon s with
+    | Some (h, t) =>
+        match parse_groups h, parse_groups t with
+        | Some gh, Some gt =>
+            if (length gh + length gt <=? 7)%nat
+            then Some (gh ++ repeat 0 (8 - (length gh + length gt)) ++ gt) else None
+        | _, _ => None
+        end
+    | None =>
+        match parse_groups s with
+        | Some g => if (length g =? 8)%nat then Some g else None
+        | None => None
+        end
+    end in
+  match groups with
+  | Some g => Some (flat_map (fun x => [x / 256; x mod 256]) g)
+  | None => None
+  end.
+Definition parse_cidr6 (s : list N) : option ipnet :=
+  match split_on 47 s with
+  | [a; n] =>
+      match parse_ip6 a, parse_dec n with
+      | Some ip, Some ones => if ones <=? 128 then Some (mk_net (apply_mask ip ones) ones 16) else None
+      | _, _ => None
+      end
+  | _ => None
+  end.
+
+(* wellKnownPrefix = mustCIDR("64:ff9b::/96"), defaultExcludeAAAA = [mustCIDR("::ffff:0:0/96")]:
+   the literals srcgen reads, parsed (values pinned by gen_wkp_net / gen_default_exclude_aaaa) *)
+Definition wkp_net : ipnet :=
+  match map parse_cidr6 well_known_prefix_txt with
+  | [Some n] => n
+  | _ => mk_net [] 0 0
+  end.
+Definition wkp_ip : list N := n_ip wkp_net.
+Definition default_exclude_aaaa : list ipnet := somes (map parse_cidr6 default_exclude_aaaa_txt).
 
 (* isWellKnownPrefix *)
 Definition is_well_known (p : ipnet) : bool := (n_ones p =? n_ones wkp_net) && ip_equal (n_ip p) wkp_ip.
